@@ -116,20 +116,22 @@ CASE_TIMEOUT = float(os.environ.get("VERIF_CASE_TIMEOUT", "120"))
 
 
 def with_watchdog(fn, case, seconds=None):
-    """Runs fn(case) under an interval timer; a Python-level non-terminating loop in the code under test is
-    interrupted with CaseTimeout (normal cases take milliseconds; the limit is 2-3 orders of magnitude above)."""
+    """Runs fn(case) under an interval timer (CPU seconds of this process); a non-terminating loop in the code under
+    test is interrupted with CaseTimeout (normal cases take milliseconds; the limit is 2-3 orders of magnitude above)."""
     import signal
     seconds = seconds or CASE_TIMEOUT
 
     def handler(signum, frame):
         raise CaseTimeout()
-    old = signal.signal(signal.SIGALRM, handler)
-    signal.setitimer(signal.ITIMER_REAL, seconds)
+    # the limit is on the CPU time of this process (ITIMER_PROF), not on the wall clock: a loop that does not terminate
+    # burns CPU, whereas a busy machine (other checks running next to this one) only stretches the wall clock
+    old = signal.signal(signal.SIGPROF, handler)
+    signal.setitimer(signal.ITIMER_PROF, seconds)
     try:
         return fn(case)
     finally:
-        signal.setitimer(signal.ITIMER_REAL, 0)
-        signal.signal(signal.SIGALRM, old)
+        signal.setitimer(signal.ITIMER_PROF, 0)
+        signal.signal(signal.SIGPROF, old)
 
 
 def run_given(strategy, oracle, seed, max_examples, stats, shrink_budget=60.0, time_budget=None,
